@@ -290,6 +290,7 @@ def run(c):
         if dd != "ok":
             missing = [unhx(x) for x in dd[5:].split(",") if x]
             if sp.get("pdocs") == "ok":
+                # (repaired in /repo 283838a; the class stays so that a regression is reported as a VIOLATION)
                 report("export-interface-docs-dropped",
                        "the doc comment of an interface that is only exported is not printed (export_interface has no docs call)",
                        label, blocks, d, lambda r, b: r["spec"].get("docs", "ok") != "ok" and r["spec"].get("pdocs") == "ok",
